@@ -188,6 +188,26 @@ def run_model_sharded(cases, shards: int = 16, timeout: int = 3000) -> list:
     return res
 
 
+def coq_eval(body: str, tag: str = 'cases', timeout: int = 900) -> str:
+    """Evaluate Gallina terms inside Coq (vm_compute): writes a scratch .v file
+    next to the development, runs coqc, returns stdout.  Used where the model
+    uses primitive floats (not extracted)."""
+    import tempfile
+    d = tempfile.mkdtemp(prefix='kvcases_')
+    path = os.path.join(d, f'{tag}.v')
+    with open(path, 'w') as fh:
+        fh.write(body)
+    try:
+        rc, out = _run(['coqc', '-Q', COQ, 'KV', path], d, timeout)
+    finally:
+        import shutil
+    if rc:
+        shutil.rmtree(d, ignore_errors=True)
+        raise BuildError('coq_eval ' + tag, out[-3000:])
+    shutil.rmtree(d, ignore_errors=True)
+    return out
+
+
 # --------------------------------------------------------------------------
 # Results, evidence, violations
 # --------------------------------------------------------------------------
